@@ -173,6 +173,10 @@ HOSTILE_DESCRIPTIONS = ['quote " inside', 'ends with quote"', "ends with backsla
                         "x\n\u2028\ny"]
 
 
+HOSTILE_ARGUMENT_NAMES = ["func", "self", "fn", "args", "kwargs", "cls", "key", "value", "node", "nodes", "default",
+                          "type", "name", "resolver", "executor", "runtime", "then", "else_", "path", "field"]
+
+
 class SchemaGen(object):
     def __init__(self, rng, hostile_descriptions=False, size=None, features=None):
         self.rng = rng
@@ -360,8 +364,16 @@ class SchemaGen(object):
             t = nn(t)
         args = []
         if rng.random() < 0.4:
+            taken = set()
             for j in range(rng.randint(1, 3)):
                 aname = "%s_a%d" % (name, j)
+                if rng.random() < 0.12:
+                    # argument names are passed on as python keyword arguments: names that library
+                    # internals use for their own parameters must not collide with anything
+                    cand = rng.choice(HOSTILE_ARGUMENT_NAMES)
+                    if cand not in taken:
+                        aname = cand
+                taken.add(aname)
                 args.append(self.make_input_value(aname, self.input_type_expr()))
         f = SField(name, t, args, self.desc(0.25), self.deprecation(),
                    ("py_" + name) if rng.random() < 0.15 else None)
